@@ -17,6 +17,8 @@ THEOREMS = [
     "SC.insert_commit_exact",
     "SC.liveFrom_extra", "SC.mem_scan", "SC.scan?_filter", "SC.applyOps_dvOps", "SC.mem_deadOf_push",
     "SC.delete_commit_exact",
+    # DELETE without FreshSnapshot: exactly the rows the handlers name; the repaired code validates them
+    "SC.liveFrom_extra_pos", "SC.scan?_filter_pos", "SC.delete_commit_exact_handlers", "SC.delete_validated",
     "SC.applyOps_dels_eq", "SC.applyOps_append", "SC.applyOps_delDvs", "SC.dvDels_eq",
     "SC.rows_after_compaction", "SC.compaction_commit_exact", "SC.compaction_fresh_exact",
     "SC.sortKeys_perm", "SC.scan?_perm", "SC.compaction_rows_perm",
